@@ -216,6 +216,12 @@ func hazards(t interface{}) string {
 				return
 			}
 			switch t.Name() {
+			case "Insert":
+				if v.CanAddr() && v.Addr().CanInterface() {
+					if ins, ok := v.Addr().Interface().(*sqlparser.Insert); ok && len(ins.OnDup) > 0 && endsInOpenJoin(ins.Rows) {
+						found["insert-select-ending-in-join-without-condition-before-on-duplicate-key"] = true
+					}
+				}
 			case "GroupConcatExpr":
 				sep := v.FieldByName("Separator").String()
 				if i := strings.Index(sep, "'"); i >= 0 && len(sep) > i+2 {
@@ -250,6 +256,25 @@ func hazards(t interface{}) string {
 	}
 	sort.Strings(out)
 	return strings.Join(out, "+")
+}
+
+// endsInOpenJoin: the statement text ends with "JOIN <table>" without ON / USING, so that a following
+// ON DUPLICATE KEY would be read as the join condition once the parentheses around the SELECT are dropped.
+func endsInOpenJoin(rows sqlparser.InsertRows) bool {
+	sel, ok := rows.(*sqlparser.Select)
+	if !ok || sel.Where != nil || sel.GroupBy != nil || sel.Having != nil || sel.OrderBy != nil || sel.Limit != nil || sel.Lock != "" || len(sel.From) == 0 {
+		return false
+	}
+	j, ok := sel.From[len(sel.From)-1].(*sqlparser.JoinTableExpr)
+	for ok {
+		if j.Condition.On == nil && j.Condition.Using == nil && !strings.HasPrefix(j.Join, "natural") {
+			if _, isTable := j.RightExpr.(*sqlparser.AliasedTableExpr); isTable {
+				return true
+			}
+		}
+		j, ok = j.RightExpr.(*sqlparser.JoinTableExpr)
+	}
+	return false
 }
 
 func valTypeName(t sqlparser.ValType) string {
@@ -399,25 +424,51 @@ func (m *mon) literalValues(o *outcome, j job, printed, kind string, with func(m
 		o.violate(fmt.Sprintf("roundtrip(5) printed form is not lexable as MySQL text: kind=%s suspects=%s", kind, suspects(j.st)), with(map[string]interface{}{"printed": printed, "error": err.Error()}))
 		return
 	}
-	pos := 0
+	// lex the received text the same way: both sequences (literals plus literal-looking tokens such as type
+	// lengths and quoted aliases) must be equal element by element; the only tokens a printed statement
+	// legitimately lacks are quoted charset / collation names, which the printer writes without quotes
+	lo, err := sqlgen.LexLiterals(sqlgen.MySQL, j.text)
+	if err != nil {
+		o.count("oracle5_original_not_lexable")
+		return
+	}
+	byOffset := map[int]sqlgen.Literal{}
 	for _, l := range j.st.Literals {
-		class, val := litClass(l)
-		found := false
-		for pos < len(lx) {
-			c := lx[pos]
+		off := l.Offset
+		if strings.HasPrefix(l.Spelling, "-") {
+			off++
+		}
+		byOffset[off] = l
+	}
+	pos := 0
+	for _, c := range lo {
+		rec, recorded := byOffset[c.Offset]
+		if !recorded && c.Class == "string" && charsetNames[string(c.Value)] {
+			continue
+		}
+		if pos < len(lx) && lx[pos].Class == c.Class && bytes.Equal(lx[pos].Value, c.Value) {
 			pos++
-			if c.Class == class && bytes.Equal(c.Value, val) || class == "hexstr" && c.Class == "hexstr" && bytes.EqualFold(c.Value, val) {
-				found = true
-				break
-			}
+			continue
 		}
-		if !found {
-			o.violate(fmt.Sprintf("roundtrip(5) literal value altered for the database: dialect=mysql literal=%s cause=%s", l.Kind, literalCause(l)),
-				with(map[string]interface{}{"printed": printed, "literal_spelling": l.Spelling, "value_mysql_reads_hex": ev.Hex(l.Value), "slot": l.Slot}))
-			return
+		got := "<none>"
+		if pos < len(lx) {
+			got = lx[pos].Spelling
 		}
+		kind, cause := "non-literal-token", "not-a-literal"
+		if recorded {
+			kind, cause = string(rec.Kind), literalCause(rec)
+		}
+		o.violate(fmt.Sprintf("roundtrip(5) literal value altered for the database: dialect=mysql literal=%s cause=%s", kind, cause),
+			with(map[string]interface{}{"printed": printed, "literal_spelling": c.Spelling, "printed_spelling": got, "value_mysql_reads_hex": ev.Hex(c.Value), "slot": rec.Slot}))
+		return
+	}
+	if pos != len(lx) {
+		o.violate("roundtrip(5) printed statement carries a literal the received one did not have: dialect=mysql", with(map[string]interface{}{"printed": printed, "extra": lx[pos].Spelling}))
 	}
 }
+
+// charsetNames are the quoted charset / collation names the generator writes (features collate, convert-using).
+var charsetNames = map[string]bool{"utf8_bin": true, "utf8": true}
 
 func litClass(l sqlgen.Literal) (string, []byte) {
 	switch {
@@ -557,17 +608,17 @@ func Run(r *ev.Run) {
 	// non-vacuity
 	r.RequireAtLeast("harvested_dml_round_tripped:mysql", 300)
 	r.RequireAtLeast("harvested_dml_round_tripped:postgresql", 200)
-	r.RequireAtLeast("dml_statements_judged:mysql", int64(r.Pick(6000, 400000)))
-	r.RequireAtLeast("dml_statements_judged:postgresql", int64(r.Pick(6000, 400000)))
-	r.RequireAtLeast("splices_round_tripped:mysql", int64(r.Pick(800, 40000)))
-	r.RequireAtLeast("splices_round_tripped:postgresql", int64(r.Pick(800, 40000)))
-	r.RequireAtLeast("oracle5_literal_values_checked", int64(r.Pick(3000, 200000)))
+	r.RequireAtLeast("dml_statements_judged:mysql", int64(r.Pick(6000, 300000)))
+	r.RequireAtLeast("dml_statements_judged:postgresql", int64(r.Pick(6000, 300000)))
+	r.RequireAtLeast("splices_round_tripped:mysql", int64(r.Pick(800, 30000)))
+	r.RequireAtLeast("splices_round_tripped:postgresql", int64(r.Pick(800, 30000)))
+	r.RequireAtLeast("oracle5_literal_values_checked", int64(r.Pick(3000, 150000)))
 	r.RequireAtLeast("mysql_rewrite_judged", int64(r.Pick(500, 20000)))
 	r.RequireAtLeast("mysql_rewrite_leaves_replaced", int64(r.Pick(500, 20000)))
 	r.RequireAtLeast("mysql_search_rewrites", int64(r.Pick(200, 8000)))
-	r.RequireAtLeast("mysql_edit_judged", int64(r.Pick(800, 40000)))
-	r.RequireAtLeast("pg_rewrite_judged", int64(r.Pick(300, 10000)))
-	r.RequireAtLeast("pg_rewrite_leaves_replaced", int64(r.Pick(150, 6000)))
+	r.RequireAtLeast("mysql_edit_judged", int64(r.Pick(800, 30000)))
+	r.RequireAtLeast("pg_rewrite_judged", int64(r.Pick(300, 8000)))
+	r.RequireAtLeast("pg_rewrite_leaves_replaced", int64(r.Pick(150, 4000)))
 	r.RequireAtLeast("pg_search_rewrites", int64(r.Pick(50, 2000)))
 	r.RequireSetAtLeast("generated_kinds_round_tripped", 12)
 }
@@ -587,7 +638,7 @@ func (m *mon) phaseRoundTrip(harvested []sqlgen.Harvested) {
 			m.pool = append(m.pool, o.text)
 		}
 	}
-	total := m.r.Pick(7000, 600000)
+	total := m.r.Pick(7000, 450000)
 	gens := []struct {
 		g      *sqlgen.Gen
 		origin string
@@ -627,7 +678,7 @@ func (m *mon) phaseRoundTrip(harvested []sqlgen.Harvested) {
 }
 
 func (m *mon) phaseSplice() {
-	total := m.r.Pick(2500, 150000)
+	total := m.r.Pick(2500, 100000)
 	if len(m.pool) < 10 {
 		return
 	}
